@@ -105,6 +105,7 @@ type Intent struct {
 	Target  string
 	Target2 string // batch_remove_add: account to add
 	Perm    Perm
+	Perm2   Perm   // perm_change_twice: the second (final) permission given to Target inside the same record
 	Invite  string // invite name
 }
 
@@ -122,6 +123,9 @@ func (in Intent) String() string {
 	}
 	if in.Perm != None || in.Kind == "perm_change" {
 		a = append(a, PermName(in.Perm))
+	}
+	if in.Kind == "perm_change_twice" {
+		a = append(a, "then:"+PermName(in.Perm2))
 	}
 	return s + "(" + strings.Join(a, ",") + ")"
 }
@@ -494,6 +498,15 @@ func (w *World) Legal(in Intent) bool {
 			return false
 		}
 		return true
+	case "perm_change_twice":
+		// one record changing the same member twice (writer <-> reader); the last value counts
+		if !CanManage(ap) || in.Target == in.Actor {
+			return false
+		}
+		if tp != Reader && tp != Writer {
+			return false
+		}
+		return (in.Perm == Reader || in.Perm == Writer) && (in.Perm2 == Reader || in.Perm2 == Writer)
 	}
 	return false
 }
@@ -603,6 +616,9 @@ func (w *World) Do(in Intent) (accepted bool) {
 			raw, err = b.BuildReadKeyChange(mkGen("rotate"))
 		case "perm_change":
 			raw, err = b.BuildPermissionChange(list.PermissionChangePayload{Identity: w.ByName[in.Target].Pub, Permissions: in.Perm})
+		case "perm_change_twice":
+			raw, err = b.BuildPermissionChanges(list.PermissionChangesPayload{Changes: []list.PermissionChangePayload{
+				{Identity: w.ByName[in.Target].Pub, Permissions: in.Perm}, {Identity: w.ByName[in.Target].Pub, Permissions: in.Perm2}}})
 		default:
 			err = fmt.Errorf("unknown op %s", in.Kind)
 		}
@@ -685,6 +701,8 @@ func (w *World) Do(in Intent) (accepted bool) {
 			cause = "permission-change-on-none-account"
 		}
 		w.setPerm(in.Target, in.Perm, idx, cause)
+	case "perm_change_twice":
+		w.setPerm(in.Target, in.Perm2, idx, "perm_change")
 	}
 	if newGen != nil {
 		newGen.RecordId, newGen.RecIdx = rec.Id, idx
